@@ -68,6 +68,10 @@ func (e *Exec) mapLen(heaps heapFn, m *Term) *Term {
 	// length heap is keyed by map type; spec-level len(m) needs the type: use a
 	// type-independent function instead
 	declFun("maplen", SInt, SInt)
+	if _, ok := funAxioms["maplen"]; !ok {
+		x := BoundVar("x", SInt)
+		funAxioms["maplen"] = []*Term{Forall([]*Term{x}, And(Ge(App("maplen", SInt, x), IntLit(0)), Eq(App("maplen", SInt, IntLit(0)), IntLit(0))), []*Term{App("maplen", SInt, x)})}
+	}
 	return App("maplen", SInt, m)
 }
 
